@@ -52,6 +52,9 @@ def _bindings(fi: FuncInfo, name: str) -> List[Optional[ast.AST]]:
                         out.append(v.elts[idx[0]])
                     elif isinstance(v, ast.Call) and isinstance(v.func, ast.Attribute) and v.func.attr == "group" and len(v.args) == len(t.elts) and len(v.args) > 1:
                         out.append(ast.Call(func=v.func, args=[v.args[idx[0]]], keywords=[]))
+                    elif isinstance(v, (ast.Name, ast.Attribute)) and q.dotted(v) is not None and not any(isinstance(e, ast.Starred) for e in t.elts):
+                        # a, b, c = seq : element i is seq[i]
+                        out.append(ast.Subscript(value=copy.deepcopy(v), slice=ast.Constant(value=idx[0]), ctx=ast.Load()))
                     elif isinstance(v, ast.Call) and isinstance(v.func, ast.Attribute) and v.func.attr == "groups" and not v.args and not v.keywords:
                         # m.groups() unpacked into n names: element i is m.group(i + 1) (arity is the caller's obligation)
                         out.append(ast.Call(func=ast.Attribute(value=v.func.value, attr="group", ctx=ast.Load()), args=[ast.Constant(value=idx[0] + 1)], keywords=[]))
@@ -241,6 +244,58 @@ def normalise(fi: FuncInfo) -> FuncInfo:
             if len(g.generators) == 1 and not g.generators[0].ifs and isinstance(g.generators[0].target, ast.Name) and isinstance(g.generators[0].iter, (ast.Tuple, ast.List)) and len(g.generators[0].iter.elts) == len(st.targets[0].elts):
                 v = g.generators[0].target.id
                 st.value = ast.copy_location(ast.Tuple(elts=[_SubstNames({v: e}).visit(copy.deepcopy(g.elt)) for e in g.generators[0].iter.elts], ctx=ast.Load()), g)
+    # N6: `x = A if C else B` (statement level, single name target) is `if C: x = A else: x = B`
+    def split_ifexp(stmts: List[ast.stmt]) -> List[ast.stmt]:
+        out2: List[ast.stmt] = []
+        for st in stmts:
+            if isinstance(st, (ast.FunctionDef, ast.AsyncFunctionDef, ast.ClassDef)):
+                out2.append(st)
+                continue
+            for fld in ("body", "orelse", "finalbody"):
+                sub = getattr(st, fld, None)
+                if isinstance(sub, list) and sub and isinstance(sub[0], ast.stmt):
+                    setattr(st, fld, split_ifexp(sub))
+            if isinstance(st, ast.Try):
+                for h_ in st.handlers:
+                    h_.body = split_ifexp(h_.body)
+            tgt = st.targets[0] if isinstance(st, ast.Assign) and len(st.targets) == 1 else (st.target if isinstance(st, ast.AnnAssign) else None)
+            if tgt is not None and isinstance(tgt, ast.Name) and isinstance(getattr(st, "value", None), ast.IfExp):
+                ie = st.value
+                a_ = copy.copy(st)
+                b_ = ast.Assign(targets=[ast.Name(id=tgt.id, ctx=ast.Store())], value=ie.orelse)
+                a_.value = ie.body
+                new_if = ast.If(test=ie.test, body=[a_], orelse=[b_])
+                ast.copy_location(new_if, st)
+                ast.copy_location(b_, st)
+                out2.extend(split_ifexp([new_if]))
+                continue
+            out2.append(st)
+        return out2
+
+    node.body = split_ifexp(node.body)
+    # N5: `d.update({K: V for T in IT})` is the loop `for T in IT: d[K] = V`
+    class Upd(ast.NodeTransformer):
+        def visit_Expr(self, st):
+            c = st.value
+            if isinstance(c, ast.Call) and isinstance(c.func, ast.Attribute) and c.func.attr == "update" and len(c.args) == 1 and not c.keywords and isinstance(c.args[0], ast.DictComp) and q.dotted(c.func.value) is not None:
+                dc = c.args[0]
+                if len(dc.generators) == 1 and not dc.generators[0].is_async:
+                    g = dc.generators[0]
+                    body: List[ast.stmt] = [ast.Assign(targets=[ast.Subscript(value=copy.deepcopy(c.func.value), slice=dc.key, ctx=ast.Store())], value=dc.value)]
+                    for cond in reversed(g.ifs):
+                        body = [ast.If(test=cond, body=body, orelse=[])]
+                    loop = ast.For(target=_as_store(g.target), iter=g.iter, body=body, orelse=[])
+                    return ast.copy_location(loop, st)
+            return st
+
+        def visit_FunctionDef(self, n):
+            return n
+
+        visit_AsyncFunctionDef = visit_FunctionDef
+        visit_Lambda = visit_FunctionDef
+
+    node.body = [Upd().visit(st) for st in node.body]
+    ast.fix_missing_locations(node)
     tmp = FuncInfo(fi.module, fi.qualname, node, fi.cls, fi.parent)
     # N2: aliases of a path that is never (re)assigned in the function
     mapping: Dict[str, ast.AST] = {}
@@ -449,7 +504,7 @@ def widen_facts(fi: FuncInfo, facts, max_variants: int = 24) -> Set[Tuple[str, b
     single-definition locals replaced by their definition, one name at a time (``limit = config.max_parts; if n > limit``
     also yields the fact ``n > config.max_parts``).  Sound as long as the operands are not re-assigned between the
     definition and the test (single-definition locals)."""
-    out: Set[Tuple[str, bool]] = set(facts)
+    out: Set[Tuple[str, bool]] = strip_walrus(facts) if any(":=" in f[0] for f in facts) else set(facts)
     out |= set(named_bool_facts(fi, out))
     for t, pol in list(out):   # len(x) > 0 / != 0 / == 0  <=>  truthiness of x
         if t.startswith("len("):
@@ -804,3 +859,31 @@ def fold_with_module(module, e: ast.AST, depth: int = 4):
                 raise
             env[nm] = fold_with_module(module, module.assigns[nm], depth - 1)
     raise q.NotFoldable(q.unparse(e))
+
+
+def strip_walrus(facts) -> Set[Tuple[str, bool]]:
+    """``facts`` plus, for every fact that contains ``(name := expr)``, the same fact about ``name``
+    (``(m := RX.fullmatch(s)) is None`` false  =>  ``m is None`` false)."""
+    out = set(facts)
+    for t, pol in list(facts):
+        if ":=" not in t:
+            continue
+        try:
+            e = ast.parse(t, mode="eval").body
+        except SyntaxError:
+            continue
+
+        class W(ast.NodeTransformer):
+            def visit_NamedExpr(self, n):
+                return ast.Name(id=n.target.id, ctx=ast.Load())
+
+        out.add(canon_fact(W().visit(e), pol))
+    return out
+
+
+def _as_store(t: ast.AST) -> ast.AST:
+    t = copy.deepcopy(t)
+    for n in ast.walk(t):
+        if hasattr(n, "ctx"):
+            n.ctx = ast.Store()
+    return t
